@@ -2,6 +2,7 @@ import BeffVerif.Props.C13
 import BeffVerif.Props.C13Inj
 import BeffVerif.Props.C13Tree
 import BeffVerif.Props.C13Rec
+import BeffVerif.Props.C13Names
 open BeffVerif.C13
 #print axioms writer_digest_eq_spec
 #print axioms writer_digest_eq_spec_param
@@ -26,3 +27,10 @@ open BeffVerif.C13
 #print axioms BeffVerif.C13R.same_stream_same_behaviour_rec
 #print axioms BeffVerif.C13R.different_behaviour_different_stream_rec
 #print axioms BeffVerif.C13R.different_behaviour_different_bytes_rec
+#print axioms BeffVerif.C13N.h256_described
+#print axioms BeffVerif.C13N.h256_alias_hop
+#print axioms BeffVerif.C13N.object_property_order
+#print axioms BeffVerif.C13N.disc_mapping_order
+#print axioms BeffVerif.C13N.h256_rename
+#print axioms BeffVerif.C13N.hash256Toks_rename
+#print axioms BeffVerif.C13N.hash32_property_order
